@@ -26,6 +26,8 @@ func c05(c *Ctx) {
 	c05R5(c)
 	c05R6(c)
 	c05R7(c)
+	// a record is read and rewritten by one request per pod at a time (shared rule)
+	c04R1(c)
 }
 
 // R1: ADD is acknowledged only after the record is on disk.
@@ -283,30 +285,61 @@ func c05R3(c *Ctx) {
 				c.Check(w == nil, "C05.R3", "NewDiskStorage reloads before returning", p.Pos(r), nd.Key(), "must-pass: entry → load() → return storage, nil", "path: "+p.describePath(w))
 			}
 		}
-		// load iterates the whole bucket: a for loop from cursor.First() while k != nil, stepping cursor.Next(), storing each entry
+		// load iterates the whole bucket: either a cursor loop (First … Next while the key is non-nil) or
+		// Bucket.ForEach; per entry, every way on to the next entry (or to a successful end) passes
+		// memory.Put — an entry is skipped only by aborting the whole load with an error
 		full := false
-		ast.Inspect(load.Decl.Body, func(k ast.Node) bool {
-			if fs, ok := k.(*ast.ForStmt); ok && fs.Init != nil && fs.Cond != nil && fs.Post != nil {
-				if strings.Contains(exprString2(fs.Init), ".First()") && strings.Contains(exprString2(fs.Post), ".Next()") && strings.Contains(exprString(fs.Cond), "!= nil") {
-					// body stores into memory and has no break
-					hasPut, hasBreak := false, false
-					ast.Inspect(fs.Body, func(j ast.Node) bool {
-						if call, ok := j.(*ast.CallExpr); ok {
-							if f := Callee(load.Info(), call); methodOn(p, f, modPath+"/"+storagePkg, "MemoryStorage", "Put") {
-								hasPut = true
-							}
-						}
-						if b, ok := j.(*ast.BranchStmt); ok && b.Tok.String() == "break" {
-							hasBreak = true
-						}
-						return true
-					})
-					full = hasPut && !hasBreak
+		linfo := load.Info()
+		isPut := containsNode(func(j ast.Node) bool {
+			call, ok := j.(*ast.CallExpr)
+			return ok && methodOn(p, Callee(linfo, call), modPath+"/"+storagePkg, "MemoryStorage", "Put")
+		})
+		failing := func(sig *types.Signature) func(*ast.ReturnStmt) bool {
+			return func(ret *ast.ReturnStmt) bool {
+				if sig == nil {
+					return false
 				}
+				ok, known := isSuccessReturn(linfo, sig, ret)
+				return known && !ok
+			}
+		}
+		ast.Inspect(load.Decl.Body, func(k ast.Node) bool {
+			switch t := k.(type) {
+			case *ast.ForStmt:
+				if t.Init == nil || t.Cond == nil || t.Post == nil {
+					return true
+				}
+				if !strings.Contains(exprString2(t.Init), ".First()") || !strings.Contains(exprString2(t.Post), ".Next()") || !strings.Contains(exprString(t.Cond), "!= nil") {
+					return true
+				}
+				var body *ast.BlockStmt = load.Decl.Body
+				var sig *types.Signature = load.Obj.Type().(*types.Signature)
+				if lit := enclosingLit(load.Decl.Body, t); lit != nil {
+					body = lit.Body
+					sig, _ = linfo.TypeOf(lit).(*types.Signature)
+				}
+				q := NewPathQuery(p, load, body)
+				q.ToBlock = loopHead(t)
+				q.Prune = func(cond ast.Expr, takeTrue bool) bool { return cond == t.Cond && !takeTrue } // one entry: the loop is entered
+				w := q.Escapes(isExactly(t.Cond), nil, isPut, failing(sig))
+				full = w == nil
+			case *ast.CallExpr:
+				f := Callee(linfo, t)
+				if f == nil || f.Name() != "ForEach" || f.Pkg() == nil || !strings.HasSuffix(f.Pkg().Path(), "boltdb/bolt") || len(t.Args) != 1 {
+					return true
+				}
+				lit, ok := ast.Unparen(t.Args[0]).(*ast.FuncLit)
+				if !ok {
+					return true
+				}
+				sig, _ := linfo.TypeOf(lit).(*types.Signature)
+				q := NewPathQuery(p, load, lit.Body)
+				w := q.Escapes(nil, nil, isPut, failing(sig))
+				full = w == nil
 			}
 			return true
 		})
-		c.Check(full, "C05.R3", "load iterates the whole bucket", p.Pos(load.Decl), load.Key(), "for k, v := cursor.First(); k != nil; k, v = cursor.Next() { memory.Put(k, decode(v)) } without break", "shape not recognised")
+		c.Check(full, "C05.R3", "load iterates the whole bucket", p.Pos(load.Decl), load.Key(), "cursor loop First…Next or Bucket.ForEach; per entry must-pass memory.Put before the next entry / a successful end", "an entry can be skipped without aborting the load, or the iteration is not recognised")
 	}
 	// nobody disables bolt's fsync
 	bad := 0
@@ -499,6 +532,10 @@ func c05R4(c *Ctx) {
 									fam = "IPv6"
 								}
 								if ko := identObj(linfo, ix.Index); ko != nil {
+									// backward slice of the index variable (through helper-expanded temporaries)
+									if src := sliceText(load, ko, 4); strings.Contains(src, "."+fam) || (fam == "IPv4" && strings.Contains(src, "ipStr")) {
+										okSrc = true
+									}
 									for _, kd := range varDefs(load, ko) {
 										if kd.node.Pos() < as.Pos() && kd.node.End() > 0 {
 											src := ""
